@@ -444,3 +444,72 @@ def server_clients(ctx):
                     'sched': ['random', ctx.seed * 7 + n], 'lines': False, 'crash': None, 'probe': True, 'from_tlc': True})
     cov['l2_behaviours_as_client_scripts'] = len(scs)
     return cov, scs
+
+
+# ------------------------------------------------------------------ Shutdown.tla (C14)
+
+def shutdown_model(ctx):
+    """TLC: safety + liveness (crash ~> everyone released and down) of the shutdown cascade, flat and managed."""
+    spec = os.path.join(SPEC_DIR, 'Shutdown.tla')
+    cfgs = [(0, 3, 2, 2), (2, 2, 2, 2)] if ctx.quick else [(0, 3, 2, 2), (0, 4, 3, 2), (2, 2, 2, 2), (3, 2, 2, 2), (2, 3, 2, 3)]
+    states = trans = 0
+    per = {}
+    for nm, nw, ncl, mc in cfgs:
+        cfg = os.path.join(ctx.scratch, 'SD_%d_%d.cfg' % (nm, nw))
+        with open(cfg, 'w') as f:
+            f.write('SPECIFICATION Spec\nCONSTANTS NM = %d\n NW = %d\n NCL = %d\n MaxCrash = %d\nINVARIANT ClientsClosedOnlyWithServer\n'
+                    'INVARIANT NoSpontaneousStop\nPROPERTY Released\nCHECK_DEADLOCK FALSE\n' % (nm, nw, ncl, mc))
+        r = common.tlc(spec, cfg, scratch=ctx.scratch, timeout=1200, workers=4, heap='4g')
+        if not r.ok:
+            raise common.MachineryError('Shutdown.tla (NM=%d NW=%d): %s' % (nm, nw, r.error[:400] or r.out[-600:]))
+        states += r.distinct
+        trans += r.states
+        per['%dm x %dw' % (nm, nw)] = [r.distinct, r.states]
+    return {'l2_states': states, 'l2_transitions': trans, 'l2_shutdown_model': per}
+
+
+def node_number(name, topo):
+    """sim node name -> Shutdown.tla node number."""
+    if name == 'server':
+        return 0
+    if name.startswith('man'):
+        return int(name[3:]) + 1
+    if name.startswith('w'):
+        wid = int(name[1:])
+        if topo[0] == 'attached':
+            return 100 + wid + 1
+        sizes = topo[1]
+        step = (2 ** 30) // len(sizes)
+        m = wid // step
+        return 100 * (m + 2) + (wid - m * step) + 1
+    return -1
+
+
+def shutdown_conformance(ctx, items):
+    """items = [(trace, diag, scenario)] of crash runs. Validates the recorded order of process exits against
+    Shutdown.tla (ShutdownTrace.tla).  Returns (coverage, notes): a mismatch is DRIFT between code and L2, not a violation."""
+    cases = []
+    for tr, dg, sc in items:
+        if not sc.get('crash') or sc.get('real'):
+            continue
+        topo = sc['topo']
+        if topo[0] == 'detached' and len(set(topo[1])) > 1:
+            continue                      # ShutdownTrace assumes the same number of workers under every manager
+        ev = []
+        for e in tr['ev']:
+            if e['e'] == 'Crash':
+                ev.append({'k': 'crash', 'n': node_number(e['node'], topo)})
+            elif e['e'] == 'NodeExit':
+                ev.append({'k': 'kill' if e.get('how') == 'kill' else 'exit', 'n': node_number(e['node'], topo)})
+        if ev:
+            cases.append({'nm': 0 if topo[0] == 'attached' else len(topo[1]), 'nw': topo[1] if topo[0] == 'attached' else topo[1][0], 'ev': ev})
+    if not cases:
+        return {}, []
+    v, st, tn, _ = common.batch_validate(os.path.join(SPEC_DIR, 'ShutdownTrace.tla'), os.path.join(SPEC_DIR, 'ShutdownTrace.cfg'),
+                                         cases, ctx.scratch, chunk=2000)
+    notes = []
+    if v:
+        idx, step, clause, _ = v[0]
+        notes.append('DRIFT property=C14 %d of %d crash runs end their processes in an order Shutdown.tla does not allow (first: %s at event %d of %s); '
+                     'code and L2 model disagree, not a violation' % (len(v), len(cases), clause, step, json.dumps(cases[idx])[:300]))
+    return {'l2_shutdown_traces_checked': len(cases), 'l2_shutdown_trace_drift': len(v), 'l2_trace_states': st}, notes
